@@ -7,10 +7,13 @@ RULE = ("MC: Converge.tla (two nodes, both handshakes, delivery in any order wit
         "environment history of the handshake phase is exported. R: each history (quick: a seeded sample) replayed on two "
         "complete nodes in a synctest bubble with the real connection manager on virtual time; hostmap after the handshake "
         "phase compared with the model, then 90 quiet seconds with traffic both ways and the statement's oracle on the real "
-        "nodes (flow, swaps, single matching tunnel); distinct = histories")
+        "nodes (flow, swaps, single matching tunnel); histories that end with GiveUp (an incomplete handshake whose copies "
+        "and retransmissions are lost until the initiator gives up) are followed by 90 silent seconds, or by traffic with "
+        "handshake datagrams lost for 25 s, and then inside packets must get through again; distinct = histories")
 ASSUMPTIONS = [
-    "'once the network is quiet' = every started handshake has completed on both sides (single copies may be lost or duplicated) "
-    "and the steady phase follows one of three traffic patterns (continuous; 7 s silent, 3 s traffic, 45 s silent; 12 s silent, 40 s traffic, 25 s silent); connection_alive_interval 5 s, pending_deletion_interval 10 s",
+    "'once the network is quiet' = either every started handshake has completed on both sides (single copies may be lost or "
+    "duplicated), or (GiveUp) an incomplete one is abandoned by its initiator after all its datagrams were lost; "
+    "the steady phase follows one of three traffic patterns (continuous; 7 s silent, 3 s traffic, 45 s silent; 12 s silent, 40 s traffic, 25 s silent); connection_alive_interval 5 s, pending_deletion_interval 10 s",
     "a swap is observed as a change of the primary at a node while its set of tunnels is unchanged",
     "the convergence clause is decided on the real nodes (oracle at the end of the quiet period); the model's own liveness is "
     "not claimed: Converge.tla abstracts check timing too coarsely to prove it",
@@ -30,19 +33,23 @@ def run(ctx):
     cases = {}
     for st in tlaval.parse_states_file(path):
         h = st['hist']
-        if h and h[-1] == 'Settle':
+        if h and h[-1] in ('Settle', 'GiveUp'):
             cases[tuple(h)] = {'hist': h, 'ta': st['ta'], 'tb': st['tb'], 'pa': st['pa'], 'pb': st['pb'], 'dropped': st['dropped']}
     os.remove(path)
     keys = sorted(cases)
     rnd = random.Random(ctx.seed)
-    limit = 150 if ctx.quick else 100000
+    limit = int(os.environ.get('VERIF_C31_LIMIT', 450)) if ctx.quick else 100000
     if len(keys) > limit:
         # keep every history in which both nodes initiate and a stage-1 datagram overtakes ... plus a seeded sample
+        gave = [k for k in keys if k[-1] == 'GiveUp']
+        keys = [k for k in keys if k[-1] != 'GiveUp']
         both = [k for k in keys if 'StartA' in k and 'StartB' in k]
         rnd.shuffle(both)
         rest = [k for k in keys if k not in set(both)]
         rnd.shuffle(rest)
-        keys = sorted(both[:limit * 2 // 3] + rest[:limit // 3])
+        rnd.shuffle(gave)
+        # (sorted, so that neighbours differ in the tail and the alternating traffic patterns spread over the histories)
+        keys = sorted(both[:limit * 4 // 9] + rest[:limit * 2 // 9]) + sorted(gave[:limit // 3])
     ctx.extra['histories_total'] = len(cases)
     ctx.extra['histories_replayed'] = len(keys)
     with open(os.path.join(ctx.scratch, 'c31_cases.ndjson'), 'w') as f:
@@ -51,7 +58,7 @@ def run(ctx):
     res = ctx.gotest('e2e', 'TestVerif_C31', tags='verif e2e_testing', also=('net',), timeout=900 if ctx.quick else 2400)
     ctx.take_mismatches(res)
     if not ctx.violations:
-        ctx.require_actions('StartA', 'StartB', 'Deliver:hs1x', 'Deliver:hs2y', 'DataA', 'double-tunnel-case', 'swap-observed')
+        ctx.require_actions('StartA', 'StartB', 'Deliver:hs1x', 'Deliver:hs2y', 'DataA', 'double-tunnel-case', 'swap-observed', 'give-up', 'GiveUp')
 
 
 META = {
